@@ -105,16 +105,27 @@ class ConcPart(Part):
             "distinct partial-order signatures (per path the sequence of (task, op kind)) in which >= 2 tasks "
             "touched a common path")
 
-    def __init__(self, prop, family="obj", mp=False, name=None, weight=1.0):
+    def __init__(self, prop, family="obj", mp=False, name=None, weight=1.0, atom=False):
         Part.__init__(self, prop)
         self.family = family
         self.mp = mp
         self.weight = weight
+        self.atom = atom
         if name:
             self.name = name
 
     def gen(self, seed, tier):
-        return gen.gen_conc_program(seed, self.family, tier, mp=self.mp)
+        prog = gen.gen_conc_program(seed, self.family, tier, mp=self.mp)
+        if self.atom:
+            prog["atom"] = True
+            import random
+            r = random.Random("atom:%d" % seed)
+            prog["knobs"]["write_through"] = r.random() < 0.6
+            if r.random() < 0.5:
+                prog["contents"] = [[r.choice([0, 1, 9000, 20000]), 5], [r.choice([3, 4097, 8193]), 6]]
+                prog["mcontents"] = [[r.choice([0, 5, 9000]), 1], [r.choice([3, 8200]), 2], [4000 + r.randrange(5000), 3]]
+                prog["knobs"]["blksize"] = r.choice([None, 4096, 1024])
+        return prog
 
     def run(self, prog):
         from . import conc
@@ -136,6 +147,147 @@ class ConcPart(Part):
         return {"part": self.name, "cfg": prog["cfg"], "knobs": prog["knobs"], "setup": prog["setup"],
                 "tasks": prog["tasks"], "pids": prog["pids"], "decisions": res.stats.get("decisions"),
                 "switches": res.stats.get("switches")}
+
+
+class SingleSweepPart(Part):
+    """Complete sweep of a fixed menu (start state x call x every site x errno x mode) for the
+    single-call engines; quick = core menu, thorough = extended menu."""
+    must_complete = True
+
+    def __init__(self, prop, engine, name, errnos=("EIO",), modes=(False, True), weight=1.0,
+                 knob_sets=None, extended_in=("thorough",), second=False, kinds="core"):
+        Part.__init__(self, prop)
+        self.engine = engine
+        self.name = name
+        self.errnos = errnos
+        self.modes = modes
+        self.weight = weight
+        self.knob_sets = knob_sets or [dict()]
+        self.extended_in = extended_in
+        self.second = second
+        self.kinds = kinds
+        self.rule = self._rule()
+
+    def _rule(self):
+        if self.engine == "FAULT":
+            return ("FAULT sweep: for every (start state, call) of the menu the fault sites of the call are counted "
+                    "on a dry run, then one run per site x errno x {one-off, persistent}: exactly one injected "
+                    "OSError per run; oracles: success reported => whole effect; failed store/tag => pid unbound or "
+                    "earlier binding intact + immediate retry; failed store_metadata => previous version intact; "
+                    "every other pid untouched; nothing left locked; follow-ups complete. distinct+non-trivial = "
+                    "distinct (start state, call, site kind, path class, errno, mode) at which the fault fired")
+        if self.engine == "CRASH":
+            return ("CRASH sweep: for every (start state, call) of the menu, process death before each mutating "
+                    "seam event (directory snapshot at that instant, Python buffers lost), then a new instance on "
+                    "the snapshot and the recovery oracle (others untouched; interrupted pid complete-or-reported; "
+                    "delete_object then store_object succeeds). distinct+non-trivial = distinct (start state, call, "
+                    "event index) at which the process died")
+        return ("ATOM sweep: every (start state, call, knob set) of the menu executed once with the invariant "
+                "monitor evaluated at every seam event (= every point between two kernel-visible steps) and after "
+                "the call; distinct+non-trivial = distinct (call, event kind, path class) at which a permanent "
+                "path had just changed")
+
+    def _menu(self, tier):
+        ext = tier in self.extended_in
+        return [(sn, su, cn, c) for sn, su in gen.single_states() for cn, c in gen.single_calls(extended=ext)]
+
+    def _runner(self):
+        from . import single
+        return {"FAULT": single.run_fault, "CRASH": single.run_crash, "ATOM": single.run_atom}[self.engine]
+
+    def items(self, seed, tier, worker, nworkers):
+        run = self._runner()
+        n = 0
+        for ks in self.knob_sets:
+            for sn, su, cn, call in self._menu(tier):
+                h = gen.single_header(seed=0, **ks)
+                base = dict(h, engine=self.engine.lower(), setup=su, call=call, state=sn, callname=cn)
+                if self.engine == "ATOM":
+                    if n % nworkers == worker:
+                        yield n, base
+                    n += 1
+                    continue
+                key = "fault" if self.engine == "FAULT" else "crash"
+                dry = run(dict(base, **{key: {"index": 10 ** 9, "kinds": self.kinds}}))
+                if dry.harness_error or dry.violations:
+                    # report through the normal path
+                    if n % nworkers == worker:
+                        yield n, dict(base, **{key: {"index": 10 ** 9, "kinds": self.kinds}})
+                    n += 1
+                    continue
+                sites = dry.stats.get("sites", 0)
+                for i in range(sites):
+                    if self.engine == "CRASH":
+                        if n % nworkers == worker:
+                            yield n, dict(base, crash={"index": i})
+                        n += 1
+                        continue
+                    for en in self.errnos:
+                        for pers in self.modes:
+                            if n % nworkers == worker:
+                                yield n, dict(base, fault={"index": i, "errno": en, "persistent": pers,
+                                                           "kinds": self.kinds})
+                            n += 1
+
+    def run(self, prog):
+        res = self._runner()(prog)
+        res.violations = [v for v in res.violations if "SETUP" not in v.props]
+        return res
+
+    def key(self, prog, res):
+        if res.stats.get("nofire"):
+            return None
+        if self.engine == "ATOM":
+            cp = res.stats.get("changed_points")
+            return (prog.get("state"), prog.get("callname"), repr(prog.get("knobs")), repr(cp)) if cp else None
+        site = res.stats.get("site")
+        if not site:
+            return None
+        return (prog.get("state"), prog.get("callname"), repr(sorted(site.items())))
+
+    def sample(self, prog, res):
+        return {"part": self.name, "state": prog.get("state"), "setup": prog.get("setup"), "call": prog.get("call"),
+                "plan": prog.get("fault") or prog.get("crash"), "site": res.stats.get("site"),
+                "flags": sorted(res.flags)}
+
+
+class SingleRandomPart(SingleSweepPart):
+    """Seeded random (start state, call, knobs, site) for the single-call engines."""
+    must_complete = False
+
+    def __init__(self, prop, engine, name, weight=1.0, errnos=("EIO", "ENOSPC", "EACCES"), second=False,
+                 kinds="core"):
+        SingleSweepPart.__init__(self, prop, engine, name, errnos=errnos, weight=weight, second=second, kinds=kinds)
+        self.rule = self.rule.replace("sweep:", "random:").replace(
+            "for every (start state, call) of the menu", "for seeded random (start-state history, call, configuration, "
+            "st_blksize, write-through) triples")
+
+    def items(self, seed, tier, worker, nworkers):
+        return Part.items(self, seed, tier, worker, nworkers)
+
+    def gen(self, seed, tier):
+        import random
+        prog = gen.gen_single_random(seed, self.engine.lower(), tier)
+        rng = random.Random("plan:%d" % seed)
+        if self.engine == "FAULT":
+            prog["fault"] = {"index": rng.randrange(0, 40), "errno": rng.choice(list(self.errnos)),
+                             "persistent": rng.random() < 0.5, "kinds": self.kinds}
+        elif self.engine == "CRASH":
+            prog["crash"] = {"index": rng.randrange(0, 40)}
+            if self.second and rng.random() < 0.5:
+                prog["crash"]["second"] = {"phase": rng.choice(["delete", "store"]), "index": rng.randrange(0, 25)}
+        return prog
+
+    def run(self, prog):
+        res = SingleSweepPart.run(self, prog)
+        if res.stats.get("nofire") and not res.harness_error and self.engine in ("FAULT", "CRASH"):
+            # the drawn index was beyond the call's sites: fold it into range and run again
+            sites = res.stats.get("sites", 0)
+            key = "fault" if self.engine == "FAULT" else "crash"
+            if sites > 0:
+                prog[key] = dict(prog[key], index=prog[key]["index"] % sites)
+                res = SingleSweepPart.run(self, prog)
+        return res
 
 
 _TABLE = {}
